@@ -233,6 +233,14 @@ def check(run):
         for la, lb in itertools.product(range(5), repeat=2):
             specs = pair_specs(rng, la, lb)
             one_case(run, specs, [0.25, -0.5, 0.125], [rng.choice(triples) for _ in range(3)], None, "off")
+    # a diffuse shell and a tight core-like shell 5-10 bohr apart, in both listing orders, moments of order 3-4 about the tight
+    # shell's centre (the product centre is next to the origin, the diffuse centre far from it)
+    for k, (ld, lt, et) in enumerate([(0, 1, 4000.0), (1, 2, 800.0)] if run.tier == "quick" else [(0, 1, 4000.0), (1, 2, 800.0), (2, 0, 5.0e4), (0, 3, 90.0)]):
+        tight = ShellSpec(lt, [0.3, -0.2, 0.1], [et, et * 0.3], [[0.5], [0.6]])
+        diffuse = ShellSpec(ld, [0.3 + 5.5, -0.2 - 4.0, 0.1 + 6.0], [0.02, 0.05], [[1.0], [0.4]])
+        for sp_ in ([diffuse, tight], [tight, diffuse]):
+            one_case(run, sp_, list(tight.center), [(0, 0, 4), (0, 0, 3), (2, 0, 2), (1, 1, 2), (0, 0, 0)], None, "on-centre")
+        run.count("diffuse shell listed with a tight shell, high orders about the tight centre")
     representation_cases(run)
     scanned_origin_case(run)
     long_list_case(run)
